@@ -179,6 +179,9 @@ func (prop) Run(t *testing.T, tape *kernel.Tape, sc kernel.Scenario) *kernel.Res
 		st.FixedChunk = 1 + tape.Choose(5000, "fixed")
 		st.TermWithData = tape.Bool(2, "term-with-data")
 		st.ZeroReads = tape.Choose(4, "zero-budget")
+		if tape.Bool(5, "close-error?") {
+			st.CloseErr = &kernel.InjectedError{What: "closing the underlying stream failed"}
+		}
 		if tape.Bool(3, "inject-error?") {
 			off := tape.Choose(n+1, "err-off")
 			if tape.Bool(3, "err-near-start") && n > 0 {
